@@ -127,6 +127,20 @@ class Reading:
     history: list[int]
     by_slot: dict[int, float]
     opt: typing.Optional[int] = None
+@dataclasses.dataclass
+class Ping:
+    pass
+class Pong(typing.NamedTuple):
+    pass
+@dataclasses.dataclass
+class Stamp:
+    on: datetime.date
+@dataclasses.dataclass
+class Envelope:
+    kind: str
+    body: typing.Union[Ping, Stamp]
+    sent: typing.Union[Ping, datetime.date]
+    trail: list[typing.Union[Ping, Stamp]]
 try:
     import pendulum
 except Exception:
@@ -146,6 +160,11 @@ SUB_CASES = [
     ("datetime.date", "pendulum.date(2020, 1, 2) if pendulum else datetime.date(2020, 1, 2)"),
     ("datetime.timedelta", "pendulum.duration(days=1, seconds=5) if pendulum else datetime.timedelta(days=1, seconds=5)"),
     ("typing.Union[int, str]", "True"), ("typing.Union[float, None]", "Celsius(2.5)"),
+    # structured types WITHOUT fields (marker classes): still reduced to plain data, and not a catch-all member of a union
+    ("Ping", "Ping()"), ("Pong", "Pong()"), ("list[Ping]", "[Ping(), Ping()]"), ("dict[str, Ping]", "{'a': Ping()}"),
+    ("typing.Optional[Ping]", "Ping()"), ("typing.Union[Ping, datetime.date]", "datetime.date(2024, 2, 29)"),
+    ("typing.Union[Ping, Stamp]", "Ping()"),
+    ("Envelope", "Envelope('ping', Ping(), datetime.date(2024, 2, 29), [Ping()])"),
 ]
 
 
